@@ -87,6 +87,17 @@ impl MulticastGroups {
     }
 }
 
+/// Verification hook (`--cfg turmoil_verif`): memberships held by `host`.
+#[cfg(turmoil_verif)]
+impl MulticastGroups {
+    pub(crate) fn verif_memberships_of(&self, host: IpAddr) -> usize {
+        self.0
+            .values()
+            .map(|members| members.iter().filter(|m| m.ip() == host).count())
+            .sum()
+    }
+}
+
 struct Rx {
     recv: mpsc::Receiver<(Datagram, SocketAddr)>,
     /// A buffered received message.
